@@ -61,6 +61,10 @@ TIERS = {
                 Templates={"nest2", "nestshadow", "nest3", "nestlet", "nesthof", "curry",
                            "bodyarr", "bodymap", "bodysome", "bodyfor", "bodypart"},
                 MaxN=2, MaxEvents=2, MaxMakers=0, PartialIn={"none"}, RefIn={"none"}, TwoHoles=False)),
+            # QName-valued variable names: prefixed parameters shadowing / aliasing outer variables
+            ('qnames', dict(
+                Templates={"qshadow", "qother", "qeqparam", "qalias", "qeqref", "qparamalias"},
+                MaxN=2, MaxEvents=2, MaxMakers=0, PartialIn={"none"}, RefIn={"none"}, TwoHoles=False)),
             # named references to focus-dependent functions made by  source ! name#0  and called later
             ('focus', dict(
                 Templates={"refpos", "refstr", "refslen", "refnlen", "refname"}, MaxN=3, MaxEvents=3, MaxMakers=0,
@@ -98,6 +102,10 @@ TIERS = {
                 Templates={"nest2", "nestshadow", "nest3", "nestlet", "nesthof", "curry",
                            "bodyarr", "bodymap", "bodysome", "bodyfor", "bodypart"},
                 MaxN=2, MaxEvents=3, MaxMakers=0, PartialIn={"none"}, RefIn={"none"}, TwoHoles=False)),
+            # QName-valued variable names: prefixed parameters shadowing / aliasing outer variables
+            ('qnames', dict(
+                Templates={"qshadow", "qother", "qeqparam", "qalias", "qeqref", "qparamalias"},
+                MaxN=2, MaxEvents=2, MaxMakers=0, PartialIn={"none"}, RefIn={"none"}, TwoHoles=False)),
             ('focus', dict(
                 Templates={"refpos", "refstr", "refslen", "refnlen", "refname"}, MaxN=3, MaxEvents=4, MaxMakers=0,
                 PartialIn={"none"}, RefIn={"none"}, TwoHoles=False)),
@@ -159,7 +167,7 @@ def render(e, args_text: str | None = None) -> str:
     if k == 'fun':
         types = e.get('types') or ['item()*'] * len(e['params'])
         return 'function(' + ', '.join('$' + p + ('' if t == 'item()*' else ' as ' + t)
-                                       for p, t in zip(e['params'], types)) + ') { ' + render(e['body'], args_text) + ' }'
+                                       for p, t in zip(e['params'], types)) + ') { ' + body_text(e['body'], args_text) + ' }'
     if k == 'ref':
         return f'{e["name"]}#{e["arity"]}'
     if k == 'call':
@@ -184,6 +192,15 @@ def render(e, args_text: str | None = None) -> str:
     if k == 'arr':
         return '[' + ', '.join(render(a, args_text) for a in e['es']) + ']'
     raise tla.MachineryError(f'cannot render {e!r}')
+
+
+def body_text(body, args_text=None) -> str:
+    """a let / for / some / if expression is the whole function body WITHOUT the parentheses render() puts
+    around it as an operand (a parenthesized expression is another token for the implementation)"""
+    t = render(body, args_text)
+    if body['k'] in ('let', 'for', 'some', 'if') and t.startswith('(') and t.endswith(')'):
+        return t[1:-1]
+    return t
 
 
 def outer_text(outer) -> str:
@@ -317,8 +334,14 @@ def doc_root():
     return ET.XML(DOC)
 
 
-def run_xpath(text: str, version: str, variables=None, doc: bool = False):
+NS = {'p': 'urn:p', 'q': 'urn:p', 'r': 'urn:r'}      # = FnEval!Canon
+
+
+def run_xpath(text: str, version: str, variables=None, doc: bool = False, ns: bool = False):
     import elementpath
+    if ns:
+        return guarded(lambda: elementpath.select(None, text, parser=parsers()[version], item=1, namespaces=NS,
+                                                  variables=variables))
     if doc:
         return guarded(lambda: elementpath.select(doc_root(), text, parser=parsers()[version], variables=variables))
     return guarded(lambda: elementpath.select(None, text, parser=parsers()[version], item=1,
@@ -366,6 +389,9 @@ def run_python_api(tpl: dict, n: int, events, version: str):
             root = doc_root()
             fs = elementpath.select(root, text, parser=parser_cls)
             ctx = XPathContext(root=root)
+        elif tpl.get('ns'):
+            fs = elementpath.select(None, text, parser=parser_cls, item=1, namespaces=NS)
+            ctx = XPathContext(root=None, item=1, namespaces=NS)
         else:
             fs = elementpath.select(None, text, parser=parser_cls, item=1)
             ctx = XPathContext(root=None, item=1)
@@ -452,7 +478,7 @@ def closures_worker(job):
         call_idx = [j for j, e in enumerate(events) if e['a'] == 'call']
         exp = [abstract(v) for v in log]
         imp = [abstract(v) for v in ilog]
-        runs = [('xpath', v, run_xpath(text, v, doc=bool(tpl.get('doc'))))
+        runs = [('xpath', v, run_xpath(text, v, doc=bool(tpl.get('doc')), ns=bool(tpl.get('ns'))))
                 for v in (('3.1',) if tpl.get('v31') else ('3.0', '3.1'))]
         runs.append(('python', '3.1', run_python_api(tpl, n, events, '3.1')))
         for binding, version, out in runs:
@@ -467,7 +493,7 @@ def closures_worker(job):
                         feat = hazards(tpl_id, tpl, n, events, j)
                         feat.update(binding=binding, outcome='value', as_implemented=(obs[q] == imp[q]))
                         fails.append((feat, dict(part='closures', text=text, template=tpl_id, n=n, events=events,
-                                                 binding=binding, parser=version, call=q, doc=bool(tpl.get('doc')),
+                                                 binding=binding, parser=version, call=q, doc=bool(tpl.get('doc')), ns=bool(tpl.get('ns')),
                                                  tpl=(tpl if binding == 'python' else None)), exp[q], obs[q]))
             else:
                 # the program died: attribute it to the first call the implementation-shaped model poisons,
@@ -479,7 +505,7 @@ def closures_worker(job):
                 predicted = bool(dead) and imp[q][0][1] == code
                 feat.update(binding=binding, outcome=f'{out[0]}:{code}', as_implemented=predicted)
                 fails.append((feat, dict(part='closures', text=text, template=tpl_id, n=n, events=events,
-                                         binding=binding, parser=version, call=q, doc=bool(tpl.get('doc')),
+                                         binding=binding, parser=version, call=q, doc=bool(tpl.get('doc')), ns=bool(tpl.get('ns')),
                                          tpl=(tpl if binding == 'python' else None)), exp[q], list(out)))
     return n_eval, n_calls, fails
 
@@ -492,7 +518,7 @@ def direct_worker(job):
         text = direct_text(tpl, h, args)
         exp, imp = abstract(val), abstract(ival)
         for v in (('3.1',) if tpl.get('v31') else ('3.0', '3.1')):
-            out = run_xpath(text, v, doc=bool(tpl.get('doc')))
+            out = run_xpath(text, v, doc=bool(tpl.get('doc')), ns=bool(tpl.get('ns')))
             n_eval += 1
             obs = project(out[1]) if out[0] == 'ok' else None
             if obs != exp:
@@ -501,7 +527,7 @@ def direct_worker(job):
                             lazy_fixed=False, partial_form=None, param_collision=bool(tpl['collision']), order='first',
                             binding='direct', outcome='value' if out[0] == 'ok' else f'{out[0]}:{out[1]}',
                             as_implemented=(obs == imp) if out[0] == 'ok' else (is_poison(imp) and imp[0][1] == out[1]))
-                fails.append((feat, dict(part='direct', text=text, parser=v, doc=bool(tpl.get('doc'))), exp,
+                fails.append((feat, dict(part='direct', text=text, parser=v, doc=bool(tpl.get('doc')), ns=bool(tpl.get('ns'))), exp,
                               obs if obs is not None else list(out)))
     return n_eval, fails
 
@@ -625,8 +651,8 @@ def run_closures(chk: core.Check, name: str, consts: dict, tlc: dict) -> None:
 
 HOF_NAME = {'ForEachA': 'for-each', 'FilterA': 'filter', 'FoldLeftA': 'fold-left', 'FoldRightA': 'fold-right',
             'PairA': 'for-each-pair', 'ApplyA': 'apply', 'SortA': 'sort'}
-FN_CLASS = {'fun': 'inline', 'let': 'closure', 'ref': 'named', 'call': 'partial', 'scall': 'partial',
-            'arr': 'array', 'maplit': 'map'}
+FN_CLASS = {'fun': 'inline', 'let': 'closure', 'ref': 'named', 'call': 'partial', 'scall': 'partial',   # (scall without '?': 'callexpr')
+            'arr': 'array', 'maplit': 'map', 'callexpr': 'callexpr'}
 
 
 def seq_text(items) -> str:
@@ -763,6 +789,8 @@ def hof_worker(job):
                     obs = parts[0] if (len(parts) == 2 and parts[0] == parts[1]) else obs
                 if obs != exp:
                     root = entry['e']['k'] if entry else 'none'
+                    if root == 'scall' and not any(a.get('k') == 'hole' for a in entry['e']['args']):
+                        root = 'callexpr'      # a static function call that RETURNS the function item
                     feat = dict(part='hof', hof=HOF_NAME[action], fn=fname, fn_class=FN_CLASS.get(root, 'none'),
                                 nested_hof=bool(entry and entry['nested']), param_collision=bool(entry and entry['collision']),
                                 zero=(args[0] if action in ('FoldLeftA', 'FoldRightA') else None),
@@ -1073,7 +1101,7 @@ def replay(rec: dict) -> int:
         out = hof_python_api(case['action'], _tup(case['args']), case['src_items'], case['ftext'], case['zeros'])
         got = project(out[1]) if out[0] == 'ok' else out
     else:
-        out = run_xpath(case['text'], case.get('parser', '3.1'), doc=bool(case.get('doc')))
+        out = run_xpath(case['text'], case.get('parser', '3.1'), doc=bool(case.get('doc')), ns=bool(case.get('ns')))
         got = project(out[1]) if out[0] == 'ok' else out
         if out[0] == 'ok' and case.get('part') == 'closures' and 'call' in case:
             parts = split_results(got)
